@@ -15,7 +15,8 @@ def mutate(toks, rng):
     if n < 2:
         return "insert", toks + [rng.choice(VOCAB)]
     kind = rng.choice(["delete", "duplicate", "swap", "insert", "replace", "illegal", "illegal-glued", "prefix", "suffix",
-                       "concat", "truncate", "unterminated-string", "unterminated-comment", "split-op", "two-mutations"])
+                       "concat", "truncate", "unterminated-string", "unterminated-comment", "split-op", "two-mutations",
+                       "extra-clause", "extra-clause", "mismatched-quotes"])
     if kind == "delete":
         del toks[rng.randrange(n)]
     elif kind == "duplicate":
@@ -61,6 +62,24 @@ def mutate(toks, rng):
             toks[i] = rng.choice([t[0] + " " + t[1], t[1] + t[0], t[0], t[1]])
         else:
             toks.insert(rng.randrange(n + 1), "=<")
+    elif kind == "extra-clause":
+        # a whole extra else / else-if / if clause after some closing brace
+        idx = [i for i, t in enumerate(toks) if t == "}"]
+        i = rng.choice(idx)
+        clause = rng.choice([["else", "{", "return", '"z"', "weighted", "1", "}"],
+                             ["else if", "x", "==", "1", "{", "return", '"z"', "weighted", "1", "}"],
+                             ["if", "x", "==", "1", "{", "return", '"z"', "weighted", "1", "}"],
+                             ["return", '"z"', "weighted", "1"]])
+        toks[i + 1:i + 1] = clause
+    elif kind == "mismatched-quotes":
+        idx = [i for i, t in enumerate(toks) if t and t[0] in "\"'" and len(t) >= 2]
+        if idx:
+            i = rng.choice(idx)
+            t = toks[i]
+            other = "'" if t[0] == '"' else '"'
+            toks[i] = rng.choice([t[:-1] + other, other + t[1:]])
+        else:
+            toks.insert(rng.randrange(n + 1), "\"abc'")
     else:
         _, toks = mutate(toks, rng)
         _, toks = mutate(toks, rng)
